@@ -804,7 +804,7 @@ func (c *vC08Case) describeGroups() []string {
 	return out
 }
 
-const vC08Rule = "rapid: policy (retention 0 or finite, shard duration 1h..7d, replicaN 1-3, 1-5 nodes), then 0-12 metadata steps {pre-create, checked small write, alter shard duration, truncate, delete group, add/remove node}, then a checked batch of 1-60 line-protocol points (series pool with shuffled tags and duplicates; times from group edges, truncation time -1/0/+1, cell edges, Min/MaxNanoTime, beyond retention, random); non-trivial = a point exactly at a group start or last nanosecond, or a batch straddling a truncation time, or a batch spanning groups of different length; distinct = hash of step kinds and per-point (edge position, group ordinal, shard index)"
+const vC08Rule = "rapid: policy (retention 0 or finite, shard duration 1h..7d, replicaN 1-3, 1-5 nodes), then 0-12 metadata steps {pre-create, checked small write, alter shard duration, truncate, delete group, add/remove node}, then a checked batch of 1-60 line-protocol points (series pool with shuffled tags and duplicates; times from group edges, truncation time -1/0/+1, cell edges, Min/MaxNanoTime, beyond retention, random); non-trivial = a point exactly at a group start or last nanosecond, or a batch straddling a truncation time, or a batch spanning groups of different length; distinct = hash of step kinds and per-point (edge position, group ordinal, shard index); the final batch is also sent through WritePointsPrivileged with stores, shard writers and a handoff queue that always succeed: points older than the retention period must be reported by a partial-write error carrying exactly their number (also when the batch mixes them with live points), and every other point must reach every owner of exactly one shard exactly once"
 
 func TestVerifC08Routing(t *testing.T) {
 	st := verifkit.For("C08", "TestVerifC08Routing", vC08Rule)
@@ -826,6 +826,11 @@ func TestVerifC08Routing(t *testing.T) {
 			c.logf("final batch %s", vC08Describe(batch))
 			if sig, msg := c.mapAndCheck(batch, "final batch"); sig != "" {
 				rt.Fatalf("%s %s\nhistory: %v\ngroups: %v", verifkit.Sig(sig), msg, c.log, c.describeGroups())
+			}
+			if !c.classes["skipped:live-groups-overlap"] {
+				if sig, msg := c.writeAndCheck(batch, "final batch written"); sig != "" {
+					rt.Fatalf("%s %s\nhistory: %v\ngroups: %v", verifkit.Sig(sig), msg, c.log, c.describeGroups())
+				}
 			}
 			dup := map[string]bool{}
 			for _, p := range batch {
